@@ -169,7 +169,10 @@ impl FiberAio {
     /// Write data to file asynchronously
     pub async fn write_all<P: AsRef<Path>>(&self, path: P, data: &[u8]) -> Result<()> {
         let mut file = self.create(path).await?;
-        file.write_all(data).await
+        file.write_all(data).await?;
+        // tokio completes a file write in the background; without the flush the call could
+        // return before the last chunk is in the file (and a late write error was lost)
+        file.flush().await
     }
 
     /// Copy file asynchronously with optimized buffering
@@ -181,7 +184,10 @@ impl FiberAio {
         let mut src = self.open(from).await?;
         let mut dst = self.create(to).await?;
 
-        src.copy_to(&mut dst).await
+        let copied = src.copy_to(&mut dst).await?;
+        // see write_all: wait until the destination really holds what was copied
+        dst.flush().await?;
+        Ok(copied)
     }
 
     /// Get the current I/O provider being used
